@@ -890,7 +890,7 @@ func ruleAccumulatorsFromZero(r *Report) {
 // sections and bytes only through Reader.Range(buffer, c.Chunk, …), or, where it reads
 // Buffer.chunks / Buffer.buffer itself, under a branch that compares with c.Chunk.
 func ruleCommitWritesOwnChunk(r *Report) {
-	h := r.Rule("C06.own-chunk", "def-use", "Commit.WriteTo serialises the sections of its own block only: a buffer's sections and bytes are reached through Reader.Range(buffer, c.Chunk, …) or under a comparison with c.Chunk", 1)
+	h := r.Rule("C06.own-chunk", "def-use", "Commit.WriteTo serialises the sections of its own block only: what it writes of a buffer's sections and bytes is reached through Reader.Range(buffer, c.Chunk, …), or written under a comparison with c.Chunk, or computed from a selection made with c.Chunk", 1)
 	fn := r.Anchor("(*commit.Commit).WriteTo")
 	if fn == nil || len(fn.Params) == 0 {
 		return
@@ -899,7 +899,13 @@ func ruleCommitWritesOwnChunk(r *Report) {
 		return dependsOn(v, func(x ssa.Value) bool {
 			fr, ok := loadedField(x)
 			return ok && fr.Struct == "commit.Commit" && fr.Field == "Chunk"
-		}, 8)
+		}, 12)
+	}
+	isRaw := func(v ssa.Value) bool {
+		return dependsOn(v, func(x ssa.Value) bool {
+			fr, ok := loadedField(x)
+			return ok && fr.Struct == "commit.Buffer" && (fr.Field == "buffer" || fr.Field == "chunks")
+		}, 12)
 	}
 	guarded := func(b *ssa.BasicBlock) bool {
 		for d := b.Idom(); d != nil; d = d.Idom() {
@@ -910,7 +916,7 @@ func ruleCommitWritesOwnChunk(r *Report) {
 		return false
 	}
 	bad := ""
-	ranges, own := 0, 0
+	ranges, writes := 0, 0
 	for _, f := range deepFuncs(fn) {
 		if f.Signature.Recv() != nil {
 			if n := structName(f.Signature.Recv().Type()); n == "commit.Reader" || n == "commit.Buffer" {
@@ -921,24 +927,36 @@ func ruleCommitWritesOwnChunk(r *Report) {
 			continue
 		}
 		allInstrs(f, func(ins ssa.Instruction) {
-			if cc, _, _ := callCommon(ins); cc != nil && calleeIs(cc, "(*commit.Reader).Range") && len(cc.Args) > 2 {
-				ranges++
-				if isOwnChunk(cc.Args[2]) {
-					own++
-				} else {
-					bad = fmt.Sprintf("%s ranges over a block other than c.Chunk", r.P.InstrPos(ins))
-				}
-			}
-			fa, ok := ins.(*ssa.FieldAddr)
-			if !ok {
+			cc, _, _ := callCommon(ins)
+			if cc == nil {
 				return
 			}
-			if fr, ok := fieldOf(fa); ok && fr.Struct == "commit.Buffer" && (fr.Field == "buffer" || fr.Field == "chunks") && !guarded(fa.Block()) {
-				bad = fmt.Sprintf("%s reads Buffer.%s of a transaction-wide buffer without selecting by c.Chunk", r.P.InstrPos(ins), fr.Field)
+			if calleeIs(cc, "(*commit.Reader).Range") && len(cc.Args) > 2 {
+				ranges++
+				if !isOwnChunk(cc.Args[2]) {
+					bad = fmt.Sprintf("%s ranges over a block other than c.Chunk", r.P.InstrPos(ins))
+				}
+				return
+			}
+			sc := cc.StaticCallee()
+			if sc == nil || sc.Signature.Recv() == nil || !isNamed(sc.Signature.Recv().Type(), "github.com/kelindar/iostream", "Writer") || !strings.HasPrefix(sc.Name(), "Write") {
+				return
+			}
+			for _, a := range cc.Args[1:] {
+				if _, isFn := a.Type().Underlying().(*types.Signature); isFn {
+					continue // the callback of WriteRange: its writes are visited as such
+				}
+				if !isRaw(a) {
+					continue
+				}
+				writes++
+				if !isOwnChunk(a) && !guarded(ins.Block()) {
+					bad = fmt.Sprintf("%s writes sections or bytes of a transaction-wide buffer that were not selected by c.Chunk", r.P.InstrPos(ins))
+				}
 			}
 		})
 	}
-	h.Check(bad == "" && ranges > 0 && own == ranges, "(*commit.Commit).WriteTo", r.P.Pos(fn.Pos()), fmt.Sprintf("%d Reader.Range(buffer, c.Chunk, …) selections, no unselected access to a buffer's sections", ranges), "Commit.WriteTo writes sections that do not belong to its block ("+bad+"): a buffer touched in another block of the same transaction is serialised into this commit and the replica applies it to the wrong block")
+	h.Check(bad == "" && ranges+writes > 0, "(*commit.Commit).WriteTo", r.P.Pos(fn.Pos()), fmt.Sprintf("%d Reader.Range(buffer, c.Chunk, …) selections, %d direct writes selected by c.Chunk", ranges, writes), "Commit.WriteTo writes sections that do not belong to its block ("+bad+"): a buffer touched in another block of the same transaction is serialised into this commit and the replica applies it to the wrong block")
 }
 
 // ruleRangeCountAgrees (C05.count): WriteRange(n, func(i, w)) announces n entries and calls back for
